@@ -10,13 +10,15 @@
      Ipv4Header::set_payload_len / max_payload_len, Ipv6Header::set_payload_length
      TransportHeader::update_checksum_ipv4 / update_checksum_ipv6 with the range
      checks of UdpHeader / TcpHeader / Icmpv6Type ::calc_checksum_*
-     UdpHeader::to_bytes, Icmpv4Header / Icmpv6Header ::to_bytes (8-byte kinds, see
-     below), Ethernet2Header / LinuxSllHeader / ArpPacket ::to_bytes
+     UdpHeader::to_bytes, Ethernet2Header / LinuxSllHeader / ArpPacket ::to_bytes
 
    Re-used models of other checks (imported, not re-modelled):
      Checksum.Model           Sum16BitWords call sequences (`checksum64 e pieces`)      C09
      Roundtrip.Ipv4 / Tcp     Ipv4Header / TcpHeader records, to_bytes,
                               calc_header_checksum                                     C08
+     Roundtrip.Icmp4 / Icmp6  Icmpv4Header / Icmpv6Header ::to_bytes, header_len         C08
+     CtlMsg.Spec              Icmpv4Type / Icmpv6Type and their parts                    C17
+     Checksum.Proto           Icmpv4Type / Icmpv6Type ::calc_checksum                    C09
      ExtChain.Model           Ipv6Extensions / Ipv4Extensions: set_next_headers,
                               write(_internal), header_len                             C12
      BitFields.Model          SingleVlanHeader / Ipv6Header ::to_bytes                 C15
@@ -27,11 +29,18 @@
    type invariant is broken, the unwraps inside the extension walk) yields
    `VdPanic site`; the theorems show it unreachable for well-formed values.
 
-   ICMP: the header kinds `Unknown{type,code,bytes5to8}` (= icmpv4_raw / icmpv6_raw),
-   EchoRequest and EchoReply are modelled (8 byte headers); the other
-   Icmpv4Type / Icmpv6Type variants are covered by the correspondence oracle only. *)
+   ICMP: EVERY Icmpv4Type / Icmpv6Type variant that PacketBuilderStep::icmpv4(..) /
+   icmpv6(..) accept (icmpv4_raw / icmpv6_raw = Unknown, the echo helpers = EchoRequest /
+   EchoReply).  Nothing is re-transliterated here: the value vocabulary is the one of
+   CtlMsg/Spec.v (C17), Icmpv4Header::to_bytes / header_len and Icmpv6Header::to_bytes /
+   header_len are the C08 models Roundtrip/Icmp4.v / Icmp6.v (20-byte timestamp messages
+   included), Icmpv4Type::calc_checksum / Icmpv6Type::calc_checksum are the C09 models of
+   Checksum/Proto.v; `c09_icmp4` / `c09_icmp6` translate between the two vocabularies
+   (C09 merges the fifteen payload-free DestinationUnreachable arms into one constructor
+   carrying the CODE_DST_UNREACH_* constant). *)
 From EP Require Import Base.Bytes Checksum.Model.
 From EP Require Roundtrip.Common Roundtrip.Tcp Roundtrip.Ipv4 ExtChain.Model BitFields.Model.
+From EP Require CtlMsg.Spec Roundtrip.Icmp4 Roundtrip.Icmp6 Checksum.ProtoTypes Checksum.Proto.
 Local Open Scope N_scope.
 
 
@@ -61,18 +70,13 @@ Inductive net_cfg :=
 | NtIpv6 (h : BitFields.Model.Ipv6Header) (x : ExtChain.Model.Exts6)
 | NtArp (a : ArpPacket).
 
-Inductive icmp_kind :=
-| IcUnknown (type_u8 code_u8 : N) (bytes5to8 : bytes)
-| IcEchoRequest (id seq : N)
-| IcEchoReply (id seq : N).
-
 Inductive transport_cfg :=
 | TrNone (last_next_header : N)   (* PacketBuilderStep<IpHeaders>::write(ip_number, payload);
                                      ignored for ARP *)
 | TrUdp (source_port destination_port : N)
 | TrTcp (h : Tcp.TcpHeader)
-| TrIcmpv4 (k : icmp_kind)
-| TrIcmpv6 (k : icmp_kind).
+| TrIcmpv4 (t : CtlMsg.Spec.Icmpv4Type)     (* .icmpv4(type) / icmpv4_raw / icmpv4_echo_request / _reply *)
+| TrIcmpv6 (t : CtlMsg.Spec.Icmpv6Type).    (* .icmpv6(type) / icmpv6_raw / icmpv6_echo_request / _reply *)
 
 Record cfg := mkCfg {
   c_link : link_cfg; c_vlan : vlan_cfg; c_net : net_cfg; c_transport : transport_cfg }.
@@ -117,15 +121,64 @@ Definition arp_packet_len (a : ArpPacket) : N :=
 Definition udp_to_bytes (sp dp length ck : N) : bytes :=
   u16_to_be sp ++ u16_to_be dp ++ u16_to_be length ++ u16_to_be ck.
 
-(* Icmpv4Header / Icmpv6Header ::to_bytes for the modelled kinds *)
-Definition icmp_to_bytes (req rep : N) (k : icmp_kind) (ck : N) : bytes :=
-  match k with
-  | IcUnknown ty code b58 => [ty; code] ++ u16_to_be ck ++ b58
-  | IcEchoRequest id seq => [req; 0] ++ u16_to_be ck ++ u16_to_be id ++ u16_to_be seq
-  | IcEchoReply id seq => [rep; 0] ++ u16_to_be ck ++ u16_to_be id ++ u16_to_be seq
+(* ------------------------------------------------------------------ ICMP: the C17 values as C09 inputs *)
+(* DestUnreachableHeader::code_u8 (the CODE_DST_UNREACH_* constants) *)
+Definition du_code_u8 (d : CtlMsg.Spec.DestUnreachableHeader) : N :=
+  match d with
+  | CtlMsg.Spec.DuNetwork => 0 | CtlMsg.Spec.DuHost => 1 | CtlMsg.Spec.DuProtocol => 2
+  | CtlMsg.Spec.DuPort => 3 | CtlMsg.Spec.DuFragmentationNeeded _ => 4
+  | CtlMsg.Spec.DuSourceRouteFailed => 5 | CtlMsg.Spec.DuNetworkUnknown => 6
+  | CtlMsg.Spec.DuHostUnknown => 7 | CtlMsg.Spec.DuIsolated => 8
+  | CtlMsg.Spec.DuNetworkProhibited => 9 | CtlMsg.Spec.DuHostProhibited => 10
+  | CtlMsg.Spec.DuTosNetwork => 11 | CtlMsg.Spec.DuTosHost => 12
+  | CtlMsg.Spec.DuFilterProhibited => 13 | CtlMsg.Spec.DuHostPrecedenceViolation => 14
+  | CtlMsg.Spec.DuPrecedenceCutoff => 15
   end.
-Definition icmp4_to_bytes := icmp_to_bytes 8 0.
-Definition icmp6_to_bytes := icmp_to_bytes 128 129.
+
+(* the argument of Icmpv4Type::calc_checksum in the vocabulary of Checksum/ProtoTypes.v *)
+Definition c09_icmp4 (t : CtlMsg.Spec.Icmpv4Type) : ProtoTypes.icmp4_type :=
+  match t with
+  | CtlMsg.Spec.V4Unknown ty c b4 b5 b6 b7 => ProtoTypes.I4Unknown ty c b4 b5 b6 b7
+  | CtlMsg.Spec.V4EchoReply id seq => ProtoTypes.I4EchoReply id seq
+  | CtlMsg.Spec.V4DestinationUnreachable (CtlMsg.Spec.DuFragmentationNeeded m) => ProtoTypes.I4FragNeeded m
+  | CtlMsg.Spec.V4DestinationUnreachable d => ProtoTypes.I4DestUnreach (du_code_u8 d)
+  | CtlMsg.Spec.V4Redirect c g0 g1 g2 g3 =>
+      ProtoTypes.I4Redirect (Icmp4.icmp4_redirect_code_u8 c) (g0, g1, g2, g3)
+  | CtlMsg.Spec.V4EchoRequest id seq => ProtoTypes.I4EchoRequest id seq
+  | CtlMsg.Spec.V4TimeExceeded c => ProtoTypes.I4TimeExceeded (Icmp4.icmp4_time_exceeded_code_u8 c)
+  | CtlMsg.Spec.V4ParameterProblem (CtlMsg.Spec.PointerIndicatesError p) => ProtoTypes.I4ParamPointer p
+  | CtlMsg.Spec.V4ParameterProblem CtlMsg.Spec.MissingRequiredOption => ProtoTypes.I4ParamOther 1
+  | CtlMsg.Spec.V4ParameterProblem CtlMsg.Spec.BadLength => ProtoTypes.I4ParamOther 2
+  | CtlMsg.Spec.V4TimestampRequest m =>
+      ProtoTypes.I4TimestampRequest (CtlMsg.Spec.ts_id m) (CtlMsg.Spec.ts_seq m) (CtlMsg.Spec.ts_originate m)
+        (CtlMsg.Spec.ts_receive m) (CtlMsg.Spec.ts_transmit m)
+  | CtlMsg.Spec.V4TimestampReply m =>
+      ProtoTypes.I4TimestampReply (CtlMsg.Spec.ts_id m) (CtlMsg.Spec.ts_seq m) (CtlMsg.Spec.ts_originate m)
+        (CtlMsg.Spec.ts_receive m) (CtlMsg.Spec.ts_transmit m)
+  end.
+
+(* the argument of Icmpv6Type::calc_checksum *)
+Definition c09_icmp6 (t : CtlMsg.Spec.Icmpv6Type) : ProtoTypes.icmp6_type :=
+  match t with
+  | CtlMsg.Spec.V6Unknown ty c b4 b5 b6 b7 => ProtoTypes.I6Unknown ty c b4 b5 b6 b7
+  | CtlMsg.Spec.V6DestinationUnreachable c => ProtoTypes.I6DestUnreach (Icmp6.icmp6_du_code_u8 c)
+  | CtlMsg.Spec.V6PacketTooBig mtu => ProtoTypes.I6PacketTooBig mtu
+  | CtlMsg.Spec.V6TimeExceeded c => ProtoTypes.I6TimeExceeded (Icmp6.icmp6_te_code_u8 c)
+  | CtlMsg.Spec.V6ParameterProblem c p => ProtoTypes.I6ParamProblem (Icmp6.icmp6_pp_code_u8 c) p
+  | CtlMsg.Spec.V6EchoRequest id seq => ProtoTypes.I6EchoRequest id seq
+  | CtlMsg.Spec.V6EchoReply id seq => ProtoTypes.I6EchoReply id seq
+  | CtlMsg.Spec.V6RouterSolicitation => ProtoTypes.I6RouterSolicitation
+  | CtlMsg.Spec.V6RouterAdvertisement chl m o lt => ProtoTypes.I6RouterAdvertisement chl m o lt
+  | CtlMsg.Spec.V6NeighborSolicitation => ProtoTypes.I6NeighborSolicitation
+  | CtlMsg.Spec.V6NeighborAdvertisement r s o => ProtoTypes.I6NeighborAdvertisement r s o
+  | CtlMsg.Spec.V6Redirect => ProtoTypes.I6Redirect
+  end.
+
+(* TransportHeader::Icmpv4(h): h.update_checksum(payload), later h.to_bytes() *)
+Definition icmp4_emit (e : endian) (t : CtlMsg.Spec.Icmpv4Type) (payload : bytes) : option bytes :=
+  Icmp4.icmp4_to_bytes
+    {| Icmp4.icmp4_type := t;
+       Icmp4.icmp4_checksum := Checksum.Proto.icmp4_calc_checksum e (c09_icmp4 t) payload |}.
 
 (* ------------------------------------------------------------------ checksum call sequences *)
 Definition p2be (v : N) : piece := P2 ((v / 256) mod 256) (v mod 256).
@@ -136,25 +189,6 @@ Definition p4_of (l : bytes) : option piece :=
   match l with [a; b; c; d] => Some (P4 a b c d) | _ => None end.
 Definition p16_of (l : bytes) : option piece :=
   if len l =? 16 then Some (P16 l) else None.
-
-(* Icmpv4Type::calc_checksum, header part *)
-Definition icmp4_pieces (k : icmp_kind) : option (list piece) :=
-  match k with
-  | IcUnknown ty code [a; b; c; d] => Some [P2 ty code; P4 a b c d]
-  | IcUnknown _ _ _ => None
-  | IcEchoRequest id seq => Some [P2 8 0; p2be id; p2be seq]
-  | IcEchoReply id seq => Some [P2 0 0; p2be id; p2be seq]
-  end.
-(* Icmpv6Type::calc_checksum, header part (echo: add_4bytes(echo.to_bytes())) *)
-Definition icmp6_pieces (k : icmp_kind) : option (list piece) :=
-  match k with
-  | IcUnknown ty code [a; b; c; d] => Some [P2 ty code; P4 a b c d]
-  | IcUnknown _ _ _ => None
-  | IcEchoRequest id seq =>
-      Some [P2 128 0; P4 ((id / 256) mod 256) (id mod 256) ((seq / 256) mod 256) (seq mod 256)]
-  | IcEchoReply id seq =>
-      Some [P2 129 0; P4 ((id / 256) mod 256) (id mod 256) ((seq / 256) mod 256) (seq mod 256)]
-  end.
 
 (* UdpHeader::calc_checksum_post_ip *)
 Definition udp_post (sp dp length : N) (payload : bytes) : list piece :=
@@ -183,8 +217,8 @@ Definition tr_header_len (t : transport_cfg) : N :=
   | TrNone _ => 0
   | TrUdp _ _ => 8
   | TrTcp h => Tcp.header_len h
-  | TrIcmpv4 _ => 8
-  | TrIcmpv6 _ => 8
+  | TrIcmpv4 t => Icmp4.icmp4_type_header_len t     (* 20 for TimestampRequest / TimestampReply, else 8 *)
+  | TrIcmpv6 t => Icmp6.icmp6_type_header_len t     (* 8 for every variant *)
   end.
 
 (* the ip number handed to set_next_headers *)
@@ -235,10 +269,10 @@ Definition tr_ipv4 (e : endian) (source destination : bytes) (t : transport_cfg)
             tcp_finish h (checksum64 e ([ps; pd; P2 0 6; p2be tcp_len] ++ tcp_post h o payload))
         | _, _, _ => TPanic 13
         end
-  | TrIcmpv4 k =>
-      match icmp4_pieces k with
-      | Some ps => TOk (icmp4_to_bytes k (checksum64 e (ps ++ [PSlice payload])))
-      | None => TPanic 14
+  | TrIcmpv4 t =>
+      match icmp4_emit e t payload with
+      | Some b => TOk b
+      | None => TPanic 14            (* ArrayVec::set_len beyond the capacity *)
       end
   | TrIcmpv6 _ => TErr EIcmpv6InIpv4
   end.
@@ -273,23 +307,27 @@ Definition tr_ipv6 (e : endian) (source destination : bytes) (t : transport_cfg)
             tcp_finish h (checksum64 e ([ps; pd; p4be tcp_len; P2 0 6] ++ tcp_post h o payload))
         | _, _, _ => TPanic 17
         end
-  | TrIcmpv4 k =>
-      match icmp4_pieces k with
-      | Some ps => TOk (icmp4_to_bytes k (checksum64 e (ps ++ [PSlice payload])))
+  | TrIcmpv4 t =>
+      match icmp4_emit e t payload with
+      | Some b => TOk b
       | None => TPanic 18
       end
-  | TrIcmpv6 k =>
-      (* Icmpv6Type::calc_checksum: max_payload_len = u32::MAX - header_len() *)
-      if 4294967287 <? len payload then
-        TErr (EPayloadLen (len payload) 4294967287 VtIcmpv6PayloadLength)
-      else
-        let msg_len := len payload + 8 in
-        match p16_of source, p16_of destination, icmp6_pieces k with
-        | Some ps, Some pd, Some ks =>
-            TOk (icmp6_to_bytes k
-                   (checksum64 e ([ps; pd; P2 0 58; p4be (as_u32 msg_len)] ++ ks ++ [PSlice payload])))
-        | _, _, _ => TPanic 19
-        end
+  | TrIcmpv6 t =>
+      (* Icmpv6Header::update_checksum(source: [u8;16], destination: [u8;16], payload):
+         Icmpv6Type::calc_checksum (max_payload_len = u32::MAX - header_len()), then to_bytes *)
+      match p16_of source, p16_of destination with
+      | Some _, Some _ =>
+          match Checksum.Proto.icmp6_calc_checksum e (c09_icmp6 t) source destination payload with
+          | ProtoTypes.COk ck =>
+              match Icmp6.icmp6_to_bytes {| Icmp6.icmp6_type := t; Icmp6.icmp6_checksum := ck |} with
+              | Some b => TOk b
+              | None => TPanic 20
+              end
+          | ProtoTypes.CErrTooBig a m => TErr (EPayloadLen a m VtIcmpv6PayloadLength)
+          | ProtoTypes.CPanic => TPanic 21
+          end
+      | _, _ => TPanic 19
+      end
   end.
 
 (* ------------------------------------------------------------------ net header *)
